@@ -459,6 +459,7 @@ loop:
 		if kind == "" {
 			kind = "crash"
 		}
+		stderr += fmt.Sprintf("\n[runner] wait error: %v; result file present: %v", werr, res != nil)
 		jidx, jdesc, jok = work.ReadJournal(jPath)
 	}
 	if !e.Keep {
